@@ -12,6 +12,11 @@ theorem listenGate_diag (k : Kind) : listenGate k = some k := by cases k <;> rfl
 theorem listenTable_diag (k : Kind) : listenTable k = some k := by cases k <;> rfl
 theorem subsTable_diag (k : Kind) : subsTable k = some k := by cases k <;> rfl
 theorem featureKind_some (f : FSet) : ∃ k, featureKind f = some k := by cases f <;> exact ⟨_, rfl⟩
+/-- The client handler of a kind invalidates the list cache of every feature set announced by that
+kind, and `resources/updated` invalidates the read cache entry (regenerated from mcp/client.go). -/
+theorem invalidates_cover (f : FSet) (k : Kind) (h : featureKind f = some k) : f.cache ∈ clientInvalidates k := by
+  cases f <;> cases k <;> first | (simp [clientInvalidates, FSet.cache]; done) | (simp [featureKind] at h)
+theorem updated_invalidates : updatedInvalidatesKey = true := rfl
 
 /-- Timers and the ghost `owed`. -/
 structure InvT (s : Server) : Prop where
